@@ -44,3 +44,15 @@ PROPS = {
         rapid_unit("wrapping", "replay", "^TestC05Wrapped$", 30000, 16 * 400000),
     ]},
 }
+
+PROPS["C06"] = {"units": [
+    plain_unit("regress", "pktbuf", "^TestRegressC06", overlay="plain"),
+    rapid_unit("sequential", "pktbuf", "^TestC06Sequential$", 3000, 16 * 40000, overlay="plain"),
+    rapid_unit("concurrent-free", "pktbuf", "^TestC06Concurrent$", 1500, 16 * 20000, overlay="plain"),
+]}
+PROPS["C07"] = {"units": [
+    plain_unit("regress", "pktbuf", "^TestRegressC07", overlay="plain"),
+    rapid_unit("limits", "pktbuf", "^TestC07Limits$", 3000, 16 * 30000, overlay="plain"),
+    rapid_unit("limits-hardlimit-tag", "pktbuf", "^TestC07Limits$", 1000, 16 * 8000, overlay="plain",
+               tags=["packetioSizeHardlimit"], env={"VERIF_HARDLIMIT": "1"}),
+]}
